@@ -119,6 +119,20 @@ def _check_case(case: Dict[str, Any]) -> Tuple[List[Tuple[str, str]], Dict[str, 
     signal.alarm(TIMEOUT)
     try:
         src = module_source(doc)
+        # (a module with nothing but the function: analysing a class already parses its docstring for its fields)
+        # what one object looks like must not depend on what was parsed or rendered before it (state kept by a parser between
+        # docstrings): the function is rendered once before anything else of this case and once more after everything else
+        def snapshot() -> Optional[Tuple[str, List[str]]]:
+            try:
+                sX = build([('m', None, False, 'def func(a, b=1, *args, **kw):\n    %r\n' % (doc,))], args=args)
+                fx = sX.allobjects['m.func']
+                html = flatten(epydoc2stan.format_docstring(fx)) + flatten(epydoc2stan.format_summary(fx))
+            except _Timeout:
+                raise
+            except Exception:
+                return None  # reported by the main pass
+            return html, [m for sec, m, th in sX.msgs if sec == 'docstring' and m.startswith('m:')]
+        first = snapshot()
         try:
             sA = build([('m', None, False, src)], args=args)   # observed by the harness
             sB = build([('m', None, False, src)], args=args)   # pydoctor's own path
@@ -167,6 +181,10 @@ def _check_case(case: Dict[str, Any]) -> Tuple[List[Tuple[str, str]], Dict[str, 
                 if not reported or not printed:
                     out.append(('errors-not-reported', '%s (%s): the parser recorded %d problems but parse_errors has it: %s, messages: %s; docstring %r' % (
                         name, fmt, h['errors'], reported, printed[:2], trunc(doc, 300))))
+        last = snapshot()
+        if first is not None and last is not None and first != last:
+            out.append(('depends-on-history', 'm.func (%s) with docstring %r is rendered or reported differently after the same text was processed for other objects:\n%s\n%s\nvs\n%s\n%s' % (
+                fmt, trunc(doc, 300), trunc(first[0], 400), first[1][:3], trunc(last[0], 400), last[1][:3])))
         # isolation
         for nname in ('m.Neighbour', 'm.Neighbour.n'):
             try:
